@@ -61,7 +61,7 @@ let run mode line =
   let nobs = ref 0 in
   let do_step e =
     if not spec then
-      match gm_step_with tr mg fw !st e with
+      match gm_step_with tr mg fw gm_next_mitems !st e with
       | Ok (s', fr) -> st := s'; last_freed := fr
       | Crash -> raise (Stop "CRASH")
       | OutOfFuel -> raise (Stop "OUTOFFUEL") in
